@@ -320,4 +320,125 @@ theorem layout_goals_on_highway (l : Layout) (h : 1 ≤ l.shelfColumns) :
 /-- the episode-level statements apply to every generated reset state: its step count is 0 -/
 theorem generate_stepCount (cfg : Cfg) (d : SpawnDraw) : (generate cfg d).stepCount = 0 := rfl
 
+/-! ### audit r6 #1: what `is_collision` reports and what it does not -/
+
+theorem collisions_false_get {w : World} (h : (collisions w).any id = false) {i : Nat} (hi : i < w.agents.length) :
+    Jx.Grid.getWC w.agentGrid 0 (w.agents.getD i default).x (w.agents.getD i default).y = (i : Int) + 1 := by
+  unfold collisions at h
+  rw [List.any_eq_false] at h
+  have h1 := h _ (List.mem_map.2 ⟨i, List.mem_range.2 hi, rfl⟩)
+  simp only [id] at h1
+  rw [Jx.getWC_nat _ _ hi] at h1
+  simpa using h1
+
+/-- the sound direction of the collision test: two different agents on one cell after the moves ARE reported
+(any state, any joint action; only the agent channel having ONE value per cell is used) -/
+theorem phys_collision_reported (cfg : Cfg) (s : State) (a : List Int) (i j : Nat)
+    (hij : i < j) (hj : j < s.agents.length)
+    (h : apos ((afterMoves cfg s a).agents.getD i default) = apos ((afterMoves cfg s a).agents.getD j default)) :
+    ¬ NoCollision cfg s a := by
+  intro hn
+  unfold NoCollision at hn
+  have hlen : (afterMoves cfg s a).agents.length = s.agents.length :=
+    (scanAgents_lengths cfg.highways s.world _ 0).1
+  have h1 := collisions_false_get hn (i := i) (by omega)
+  have h2 := collisions_false_get hn (i := j) (by omega)
+  unfold apos at h
+  injection h with hx hy
+  rw [hx, hy, h2] at h1
+  omega
+
+/-! ### audit r6 #6: a legal FORWARD is executed by `step` -/
+
+theorem grid_setWD_dims (g : IGrid) (r c v : Int) :
+    gRows (Jx.Grid.setWD g r c v) = gRows g ∧ gCols (Jx.Grid.setWD g r c v) = gCols g := by
+  unfold Jx.Grid.setWD gRows gCols
+  simp only []
+  split
+  · exact ⟨rfl, rfl⟩
+  split
+  · exact ⟨rfl, rfl⟩
+  split
+  · exact ⟨rfl, rfl⟩
+  · rename_i row hrow
+    split
+    · exact ⟨rfl, rfl⟩
+    split
+    · exact ⟨rfl, rfl⟩
+    · refine ⟨by simp, ?_⟩
+      cases g with
+      | nil => simp at hrow
+      | cons h t =>
+        cases hk : (Jx.wrapIdx (h :: t).length r).toNat with
+        | zero =>
+          rw [hk] at hrow
+          simp at hrow; subst hrow
+          simp
+        | succ k => simp
+
+theorem updateAgent_dims (hw : List (List Bool)) (w : World) (a : Int) (i : Nat) :
+    gRows (updateAgent hw w a i).shelfGrid = gRows w.shelfGrid ∧
+    gCols (updateAgent hw w a i).shelfGrid = gCols w.shelfGrid := by
+  unfold updateAgent
+  simp only []
+  split
+  · unfold forward
+    simp only []
+    split
+    · have h1 := grid_setWD_dims w.shelfGrid (Jx.getWC w.agents default (i : Int)).x (Jx.getWC w.agents default (i : Int)).y 0
+      have h2 := grid_setWD_dims (Jx.Grid.setWD w.shelfGrid (Jx.getWC w.agents default (i : Int)).x (Jx.getWC w.agents default (i : Int)).y 0)
+      exact ⟨(h2 _ _ _).1.trans h1.1, (h2 _ _ _).2.trans h1.2⟩
+    · exact ⟨rfl, rfl⟩
+  · unfold turnOrToggle
+    simp only []
+    repeat' split
+    all_goals exact ⟨rfl, rfl⟩
+
+theorem forward_agent (w : World) {i : Nat} {ag : Agent} (hi : w.agents[i]? = some ag) :
+    (forward w i).agents[i]? =
+      some { ag with x := (newPos (gRows w.shelfGrid) (gCols w.shelfGrid) ag.x ag.y ag.dir).1,
+                     y := (newPos (gRows w.shelfGrid) (gCols w.shelfGrid) ag.x ag.y ag.dir).2 } := by
+  have hlt := getElem?_lt hi
+  unfold forward
+  simp only [getWC_idx w.agents default hi, setWD_idx w.agents _ hlt]
+  split <;> simp [hlt]
+
+theorem scan_forward_agent (hw : List (List Bool)) : ∀ (as : List Int) (w : World) (i0 k : Nat) (ag : Agent),
+    i0 ≤ k → as[k - i0]? = some 1 → w.agents[k]? = some ag →
+    (scanAgents hw w as i0).agents[k]? =
+      some { ag with x := (newPos (gRows w.shelfGrid) (gCols w.shelfGrid) ag.x ag.y ag.dir).1,
+                     y := (newPos (gRows w.shelfGrid) (gCols w.shelfGrid) ag.x ag.y ag.dir).2 } := by
+  intro as
+  induction as with
+  | nil => intro w i0 k ag _ h; simp at h
+  | cons a as ih =>
+    intro w i0 k ag hk ha hag
+    simp only [scanAgents]
+    by_cases hki : k = i0
+    · subst hki
+      simp only [Nat.sub_self, List.getElem?_cons_zero, Option.some.injEq] at ha
+      subst ha
+      rw [scan_agents_lt hw as _ (k + 1) k (by omega)]
+      unfold updateAgent
+      simp only [if_true]
+      exact forward_agent w hag
+    · have e : k - i0 = (k - (i0 + 1)) + 1 := by omega
+      rw [e, List.getElem?_cons_succ] at ha
+      have hd := updateAgent_dims hw w a i0
+      have := ih (updateAgent hw w a i0) (i0 + 1) k ag (by omega) ha (by rw [updateAgent_agents_ne hw w a hki]; exact hag)
+      rw [hd.1, hd.2] at this
+      exact this
+
+theorem legal_forward_executes (cfg : Cfg) (s : State) (hc : Consistent cfg s) (actions draws : List Int)
+    (i : Nat) (ag : Agent) (hi : s.agents[i]? = some ag) (ha : actions[i]? = some 1) (hl : legal s i 1) :
+    (step cfg s actions draws).1.agents[i]? =
+      some { ag with x := (newPos (gRows s.shelfGrid) (gCols s.shelfGrid) ag.x ag.y ag.dir).1,
+                     y := (newPos (gRows s.shelfGrid) (gCols s.shelfGrid) ag.x ag.y ag.dir).2 } := by
+  have hlt := getElem?_lt hi
+  have hv := validActions_legal (cfg := cfg) hc actions (i := i) (a := 1) hlt (by simpa using ha) (by omega)
+  simp only [hl, if_true] at hv
+  have := scan_forward_agent cfg.highways (validActions s.mask actions) s.world 0 i ag (Nat.zero_le i)
+    (by simpa using hv) hi
+  simpa [step, State.world] using this
+
 end RobotWarehouse
